@@ -62,7 +62,7 @@ func (s rootSet) addAll(o rootSet) bool {
 type Effect struct {
 	WParams  map[int]uint8 // bit 0: writes the memory the argument points to; bit 1: writes memory reached through a reference loaded from it
 	WGlobals map[GW]bool
-	WOther   bool         // writes through free variables / unknown roots
+	WOther   bool          // writes through free variables / unknown roots
 	RetFrom  map[int]uint8 // results may alias these params (bit 0 directly, bit 1 through a loaded reference)
 	RetGlob  map[GW]bool
 	RetOther bool
